@@ -150,6 +150,7 @@ type WorkerOut struct {
 	WallS      float64           `json:"wall_s"`
 	Exhaustive bool              `json:"exhaustive,omitempty"`
 	Enumerated int               `json:"enumerated,omitempty"`
+	Pairs      int               `json:"pairs,omitempty"`
 }
 
 func h64(s string) uint64 {
